@@ -41,6 +41,7 @@ type FuncContract struct {
 	ModNone   bool
 	HasMod    bool
 	WeakFrame map[int]bool // loops declared `freshwrites`: weak automatic frame + loop-frame obligations
+	LoopsIn   map[string]map[int][]*Clause // invariants for loops of inlined callees, by callee short name
 	Loops     map[int][]*Clause
 	AtCalls   []*AtCall
 	Thread    bool
@@ -228,6 +229,7 @@ func (db *ContractDB) parseLines(p *packages.Package, file string, lines []srcLi
 	var curFunc *FuncContract
 	var curType *TypeContract
 	curLoop := 0
+	curLoopIn := ""
 	for _, it := range items {
 		first := firstWord(it.text)
 		rest := strings.TrimSpace(it.text[len(first):])
@@ -243,6 +245,7 @@ func (db *ContractDB) parseLines(p *packages.Package, file string, lines []srcLi
 		case "func":
 			curType = nil
 			curLoop = 0
+			curLoopIn = ""
 			curFunc = &FuncContract{Pkg: p.PkgPath, Name: rest, Loops: map[int][]*Clause{}, File: file, Line: it.line}
 			db.funcs[p.PkgPath+"."+rest] = curFunc
 		case "extern":
@@ -319,7 +322,14 @@ func (db *ContractDB) parseLines(p *packages.Package, file string, lines []srcLi
 				curFunc.SharedAtomics = true
 			}
 		case "loop":
-			n, err := strconv.Atoi(rest)
+			// loop N            : the N-th loop of this function
+			// loop callee.N     : the N-th loop of a callee without contract that is inlined into this function
+			curLoopIn = ""
+			if i := strings.LastIndex(rest, "."); i > 0 {
+				curLoopIn = strings.TrimSpace(rest[:i])
+				rest = rest[i+1:]
+			}
+			n, err := strconv.Atoi(strings.TrimSpace(rest))
 			if err != nil {
 				db.errf(file, it.line, "loop needs a number")
 			}
@@ -330,7 +340,17 @@ func (db *ContractDB) parseLines(p *packages.Package, file string, lines []srcLi
 				continue
 			}
 			if c := mk("invariant", rest); c != nil {
-				curFunc.Loops[curLoop] = append(curFunc.Loops[curLoop], c)
+				if curLoopIn != "" {
+					if curFunc.LoopsIn == nil {
+						curFunc.LoopsIn = map[string]map[int][]*Clause{}
+					}
+					if curFunc.LoopsIn[curLoopIn] == nil {
+						curFunc.LoopsIn[curLoopIn] = map[int][]*Clause{}
+					}
+					curFunc.LoopsIn[curLoopIn][curLoop] = append(curFunc.LoopsIn[curLoopIn][curLoop], c)
+				} else {
+					curFunc.Loops[curLoop] = append(curFunc.Loops[curLoop], c)
+				}
 			}
 		case "decreases":
 		case "freshwrites":
